@@ -89,6 +89,23 @@ def plan(tier, seed):
         for level in ("1.5", "1.1"):
             for L, rpc in ((3, 1), (3, 2), (5, 2), (5, 3)):
                 cases.append({"spec": spec_for(level, L), "devs": [], "rpc": rpc, "label": f"{level} baseline L={L} rpc={rpc}"})
+    # relationships between CONSECUTIVE lines: every ordered pair of stamps of one leap year on lines (1, 2), incl. time going
+    # backwards by almost a day, forwards across midnight / new year, and equal stamps
+    pair_stamps = [(2016, d, ms) for d in (1, 60, 365, 366) for ms in (0, 1, 43_200_000, 86_399_000, 86_399_999)] + [(2017, 1, 0), (2015, 365, 86_399_999)]
+    for level in ("1.5", "1.1"):
+        sp3 = spec_for(level, 4)
+        for a in pair_stamps:
+            for b in pair_stamps:
+                devs = [["img0", "line", "sensor_acquisition_date", {"hex": struct.pack(">III", *a).hex()}, 1], ["img0", "line", "sensor_acquisition_date", {"hex": struct.pack(">III", *b).hex()}, 2]]
+                if level == "1.1":
+                    devs += [["img0", "line", "sensor_acquisition_date_microseconds", {"hex": struct.pack(">Q", a[2] * 1000 + 7).hex()}, 1], ["img0", "line", "sensor_acquisition_date_microseconds", {"hex": struct.pack(">Q", b[2] * 1000 + 7).hex()}, 2]]
+                cases.append({"spec": sp3, "devs": devs, "label": f"{level} lines 1,2 stamped {a} then {b}"})
+    # ScanSAR file names: full aperture (-F<n>) and SPECAN (-B<n>); the header attributes are the same fields of the same record
+    for level, scans in (("1.1", ("F1", "B1", "B5", "F0")), ("1.5", ("F2", "B3"))):
+        for scan in scans:
+            cases.append({"spec": {"level": level, "images": [["HH", scan, 3, 2], ["HV", scan, 2, 3]]}, "devs": [], "label": f"{level} images named -{scan}"})
+            for key, vals in HEADER.items():
+                cases.append({"spec": {"level": level, "images": [["HH", scan, 3, 2]]}, "devs": [["img0", "file_descriptor", key, {"hex": vals[0].hex()}]], "label": f"{level} image named -{scan}, header {key} blank"})
     # more lines than one metadata request holds (default 1024), and hundreds of small requests
     for level in ("1.5", "1.1"):
         for L, rpc in ((1100, None), (1030, 1000), (300, 7), (260, 256)) if tier == "quick" else ((1100, None), (2100, None), (1030, 1000), (1025, 1024), (300, 7), (300, 1), (260, 256), (600, 64)):
@@ -169,7 +186,7 @@ def run(res, tier, seed):
         "both record types; baselines L=1..3; every prefix field x {0,1,mid,max,high bit | every enum code | flag 0,1,2} on one"
         " line (quick) / each line (thorough), per-file constants on all lines; (year,day,ms) over 3 years x days"
         " {1,59,60,61,365,366} x ms {0,1,86399999}; us {0,1,86399999999}; 5 optional header fields x {blank,0,value,full width};"
-        " neighbour pairs full width (thorough); images of 260..2100 lines (more than one metadata request at the default rpc, hundreds of small ones); four-image products (two scans x two polarisations, four polarisations) uncached, while writing the index cache and through it; 24-line piecewise-constant and 4200-line images with extreme values, uncached and through the cache; pairs of a 1.1 and a 1.5 image with equal record length parsed in one process in both orders; image files replaced in place by files of equal size (modification time kept / new) between two opens. Every case is a distinct product compared on all /imagery leaves."
+        " neighbour pairs full width (thorough); every ordered pair of 22 stamps on two consecutive lines; -F<n> / -B<n> file names; images of 260..2100 lines (more than one metadata request at the default rpc, hundreds of small ones); four-image products (two scans x two polarisations, four polarisations) uncached, while writing the index cache and through it; 24-line piecewise-constant and 4200-line images with extreme values, uncached and through the cache; pairs of a 1.1 and a 1.5 image with equal record length parsed in one process in both orders; image files replaced in place by files of equal size (modification time kept / new) between two opens. Every case is a distinct product compared on all /imagery leaves."
     )
     res.assumptions = ["per-file constants are constant over the lines of a file (the property calls them constants)", "a blank interleaving id may surface as absent or as '' (C03 and C20 word it differently)"]
     unv = set()
